@@ -12,7 +12,7 @@
 (* invalid, no demand), `invalid` (wrong protocol version: the reader may   *)
 (* stop; no demand by C13).                                                 *)
 (***************************************************************************)
-EXTENDS Gen_MsgBase, Json, TLC
+EXTENDS Gen_MsgBase, Json, TLC, Integers
 CONSTANTS CODES, PAYLOADS, FPOS, FPOS1, POSITIONS, LES   \* FPOS1 (if non-empty): field positions used with payload 1 instead of FPOS
 
 \* normal messages of every type with every known field and flag
@@ -21,21 +21,28 @@ Place(odd, pos, le) == InsertAt(<<NormA(le), NormB(le)>>, pos, odd)
 Case(kind, what, odd, pos, le) == [kind |-> kind, what |-> what, odd |-> pos, stream |-> Place(odd, pos, le)]
 
 UnknownFlagBytes == {8, 16, 32, 64, 128, 248, 255, 10}
-Cases ==
+NPART == 8
+\* the cases of partition k (codes / types congruent k; flags and controls in partition 0)
+CasesP(k) ==
   UNION {
-     {Case("field", [code |-> c, payload |-> p, at |-> fp], OddField(c, p, fp, le), pos, le) : c \in CODES, p \in (IF FPOS1 = {} THEN PAYLOADS ELSE PAYLOADS \ {1}), fp \in FPOS}
-     \cup {Case("field", [code |-> c, payload |-> 1, at |-> fp], OddField(c, 1, fp, le), pos, le) : c \in CODES, fp \in FPOS1}   \* (set difference below: payload 1 moves from FPOS to FPOS1 when FPOS1 is non-empty)
-     \cup {Case("flag", [flags |-> fl], OddFlag(fl, le), pos, le) : fl \in UnknownFlagBytes}
-     \cup {Case("type", [type |-> ty], OddType(ty, le), pos, le) : ty \in 5..255}
-     \cup {Case("type0", [type |-> 0], OddType(0, le), pos, le),
-           Case("normal", [flags |-> 2], OddFlag(2, le), pos, le),
-           Case("normal", [flags |-> 7], NormC(MT_RETURN, le), pos, le), Case("normal", [flags |-> 7], NormC(MT_ERROR, le), pos, le),
-           Case("normal", [flags |-> 7], NormC(MT_SIGNAL, le), pos, le), Case("normal", [flags |-> 7], NormC(MT_CALL, le), pos, le),
-           Case("invalid", [version |-> 2], Invalid(le), pos, le)}
+     {Case("field", [code |-> c, payload |-> p, at |-> fp], OddField(c, p, fp, le), pos, le)
+        : c \in {x \in CODES : x % NPART = k}, p \in (IF FPOS1 = {} THEN PAYLOADS ELSE PAYLOADS \ {1}), fp \in FPOS}
+     \cup {Case("field", [code |-> c, payload |-> 1, at |-> fp], OddField(c, 1, fp, le), pos, le) : c \in {x \in CODES : x % NPART = k}, fp \in FPOS1}
+     \cup {Case("type", [type |-> ty], OddType(ty, le), pos, le) : ty \in {x \in 5..255 : x % NPART = k}}
+     \cup (IF k # 0 THEN {} ELSE
+          {Case("flag", [flags |-> fl], OddFlag(fl, le), pos, le) : fl \in UnknownFlagBytes}
+          \cup {Case("type0", [type |-> 0], OddType(0, le), pos, le),
+                Case("normal", [flags |-> 2], OddFlag(2, le), pos, le),
+                Case("normal", [flags |-> 7], NormC(MT_RETURN, le), pos, le), Case("normal", [flags |-> 7], NormC(MT_ERROR, le), pos, le),
+                Case("normal", [flags |-> 7], NormC(MT_SIGNAL, le), pos, le), Case("normal", [flags |-> 7], NormC(MT_CALL, le), pos, le),
+                Case("invalid", [version |-> 2], Invalid(le), pos, le)})
     : pos \in POSITIONS, le \in LES}
 
+(* root -> partition -> case, so that TLC's workers build and emit the partitions in parallel *)
 VARIABLE c
-Init == c \in Cases
-Next == UNCHANGED c
-Emit == PrintT(<<"CASE", ToJson(c)>>)
+IsCase == "kind" \in DOMAIN c
+Init == c = [part |-> -1]
+Next == \/ (~IsCase /\ c.part = -1 /\ c' \in {[part |-> k] : k \in 0..(NPART - 1)})
+        \/ (~IsCase /\ c.part >= 0 /\ c' \in CasesP(c.part))
+Emit == IsCase => PrintT(<<"CASE", ToJson(c)>>)
 =============================================================================
